@@ -1,0 +1,201 @@
+//! Verification hooks (compiled only with `--cfg john_yu_sm9_core_verif`).
+//!
+//! Add-only: re-exports of crate-internal types and thin wrappers so that
+//! out-of-tree verification harnesses can name the real functions. Nothing here
+//! changes behaviour; with the cfg off this file is not compiled.
+#![allow(dead_code, missing_docs)]
+
+pub use crate::fields::{FieldElement, Fq as RawFq, Fq12, Fq2 as RawFq2, Fq4, Fr as RawFr};
+pub use crate::groups::{
+    AffineG, AffineG1 as RawAffineG1, AffineG2 as RawAffineG2, G1Params, G2Params, GroupElement,
+    GroupParams, G, G1 as RawG1, G2 as RawG2,
+};
+pub use crate::pairings::verif_hooks as pairing_hooks;
+pub use crate::u256::{BitIterator, Error as U256Error, U256};
+pub use crate::u512::U512;
+
+// ---- raw (stored, Montgomery) limbs <-> field elements, no arithmetic involved
+pub fn fq_from_raw(l: [u64; 4]) -> RawFq {
+    crate::fields::Fq(U256::from(l))
+}
+pub fn fq_raw(a: &RawFq) -> [u64; 4] {
+    [a.0[0], a.0[1], a.0[2], a.0[3]]
+}
+pub fn fr_from_raw(l: [u64; 4]) -> RawFr {
+    crate::fields::Fr(U256::from(l))
+}
+pub fn fr_raw(a: &RawFr) -> [u64; 4] {
+    [a.0[0], a.0[1], a.0[2], a.0[3]]
+}
+pub fn u256_limbs(a: &U256) -> [u64; 4] {
+    [a[0], a[1], a[2], a[3]]
+}
+pub fn u512_limbs(a: &U512) -> [u64; 8] {
+    [a[0], a[1], a[2], a[3], a[4], a[5], a[6], a[7]]
+}
+
+// ---- public wrapper types <-> internal types (tuple fields are crate-private)
+pub fn pub_fq(a: RawFq) -> crate::Fq {
+    crate::Fq(a)
+}
+pub fn pub_fq_inner(a: &crate::Fq) -> RawFq {
+    a.0
+}
+pub fn pub_fr(a: RawFr) -> crate::Fr {
+    crate::Fr(a)
+}
+pub fn pub_fr_inner(a: &crate::Fr) -> RawFr {
+    a.0
+}
+pub fn pub_fq2(a: RawFq2) -> crate::Fq2 {
+    crate::Fq2(a)
+}
+pub fn pub_fq2_inner(a: &crate::Fq2) -> RawFq2 {
+    a.0
+}
+pub fn pub_g1(a: RawG1) -> crate::G1 {
+    crate::G1(a)
+}
+pub fn pub_g1_inner(a: &crate::G1) -> RawG1 {
+    a.0
+}
+pub fn pub_g2(a: RawG2) -> crate::G2 {
+    crate::G2(a)
+}
+pub fn pub_g2_inner(a: &crate::G2) -> RawG2 {
+    a.0
+}
+pub fn pub_gt(a: Fq12) -> crate::Gt {
+    crate::Gt(a)
+}
+pub fn pub_gt_inner(a: &crate::Gt) -> Fq12 {
+    a.0
+}
+
+// ---- tower coordinates
+pub fn fq2_parts(a: &RawFq2) -> (RawFq, RawFq) {
+    (a.c0, a.c1)
+}
+pub fn fq4_parts(a: &Fq4) -> (RawFq2, RawFq2) {
+    (a.c0, a.c1)
+}
+pub fn fq12_parts(a: &Fq12) -> (Fq4, Fq4, Fq4) {
+    (a.c0, a.c1, a.c2)
+}
+pub fn fq12_mul(a: &Fq12, b: &Fq12) -> Fq12 {
+    *a * *b
+}
+
+// ---- kernels, kept out of line under stable (mangled) names for IR-level analysis
+#[inline(never)]
+pub fn vh_fq_mul(a: &mut U256, b: &U256) {
+    *a = (fq_from_raw(u256_limbs(a)) * fq_from_raw(u256_limbs(b))).0;
+}
+#[inline(never)]
+pub fn vh_fr_mul(a: &mut U256, b: &U256) {
+    *a = (fr_from_raw(u256_limbs(a)) * fr_from_raw(u256_limbs(b))).0;
+}
+#[inline(never)]
+pub fn vh_fq_square(a: &mut U256) {
+    *a = fq_from_raw(u256_limbs(a)).squared().0;
+}
+#[inline(never)]
+pub fn vh_fr_square(a: &mut U256) {
+    *a = fr_from_raw(u256_limbs(a)).squared().0;
+}
+#[inline(never)]
+pub fn vh_fq_sop2(a: &[RawFq; 2], b: &[RawFq; 2]) -> RawFq {
+    RawFq::sum_of_products(a, b)
+}
+#[inline(never)]
+pub fn vh_fq_sop4(a: &[RawFq; 4], b: &[RawFq; 4]) -> RawFq {
+    RawFq::sum_of_products(a, b)
+}
+#[inline(never)]
+pub fn vh_fq_decode(a: &RawFq) -> U256 {
+    U256::from(*a)
+}
+#[inline(never)]
+pub fn vh_fr_decode(a: &RawFr) -> U256 {
+    U256::from(*a)
+}
+#[inline(never)]
+pub fn vh_fq_encode(a: &U256) -> RawFq {
+    RawFq::new_mul_factor(*a)
+}
+#[inline(never)]
+pub fn vh_fr_encode(a: &U256) -> RawFr {
+    RawFr::new_mul_factor(*a)
+}
+#[inline(never)]
+pub fn vh_fq_add(a: &RawFq, b: &RawFq) -> RawFq {
+    *a + *b
+}
+#[inline(never)]
+pub fn vh_fq_sub(a: &RawFq, b: &RawFq) -> RawFq {
+    *a - *b
+}
+#[inline(never)]
+pub fn vh_fq_neg(a: &RawFq) -> RawFq {
+    -*a
+}
+#[inline(never)]
+pub fn vh_fq_double(a: &RawFq) -> RawFq {
+    a.double()
+}
+#[inline(never)]
+pub fn vh_fq_div2(a: &RawFq) -> RawFq {
+    a.div2()
+}
+#[inline(never)]
+pub fn vh_fr_add(a: &RawFr, b: &RawFr) -> RawFr {
+    *a + *b
+}
+#[inline(never)]
+pub fn vh_fr_sub(a: &RawFr, b: &RawFr) -> RawFr {
+    *a - *b
+}
+#[inline(never)]
+pub fn vh_fr_neg(a: &RawFr) -> RawFr {
+    -*a
+}
+#[inline(never)]
+pub fn vh_fr_double(a: &RawFr) -> RawFr {
+    a.double()
+}
+#[inline(never)]
+pub fn vh_u512_divrem(x: &U512, m: &U256) -> (Option<U256>, U256) {
+    x.divrem(m)
+}
+#[inline(never)]
+pub fn vh_g1_mul(p: &RawG1, k: &RawFr) -> RawG1 {
+    *p * *k
+}
+#[inline(never)]
+pub fn vh_g2_mul(p: &RawG2, k: &RawFr) -> RawG2 {
+    *p * *k
+}
+#[inline(never)]
+pub fn vh_fq_pow(a: &RawFq, e: &RawFq) -> RawFq {
+    a.pow(*e)
+}
+#[inline(never)]
+pub fn vh_fr_pow(a: &RawFr, e: &RawFr) -> RawFr {
+    a.pow(*e)
+}
+#[inline(never)]
+pub fn vh_fq12_pow(a: &Fq12, e: &RawFr) -> Fq12 {
+    FieldElement::pow(a, *e)
+}
+#[inline(never)]
+pub fn vh_fq_invert(a: &mut U256) {
+    if let Some(i) = fq_from_raw(u256_limbs(a)).inverse() {
+        *a = i.0;
+    }
+}
+#[inline(never)]
+pub fn vh_fr_invert(a: &mut U256) {
+    if let Some(i) = fr_from_raw(u256_limbs(a)).inverse() {
+        *a = i.0;
+    }
+}
